@@ -73,20 +73,23 @@ def ref_segwit_encode(hrp, witver, prog):
     return hrp + '1' + ''.join(CHARSET[d] for d in data + chk)
 
 
+from specs.bech32 import segwit_ok, bech_data, conv58
+
+
 @spec(opaque=True, sig=[Str, Str], ret=Bool)
 def segwit_valid(hrp, addr):
-    """addr is a valid BIP173 segwit address for prefix hrp"""
-    return ref_segwit_decode(hrp, addr) is not None
+    """addr is a valid BIP173 segwit address for prefix hrp (the predicate proved for the decoder under C11)"""
+    return segwit_ok(hrp, addr)
 
 
 @spec(opaque=True, sig=[Str, Str], ret=Int)
 def segwit_ver(hrp, addr):
-    return ref_segwit_decode(hrp, addr)[0]
+    return bech_data(addr)[0]
 
 
 @spec(opaque=True, sig=[Str, Str], ret=Bytes)
 def segwit_prog(hrp, addr):
-    return ref_segwit_decode(hrp, addr)[1]
+    return bytes(conv58(bech_data(addr)[1:]))
 
 
 @spec(opaque=True, sig=[Str, Int, Bytes], ret=Str)
